@@ -600,7 +600,13 @@ def call(pe, name, args, kwargs, node):
     if pred.term != ("sym", "learning_phase"):
       va, vb = run(a), run(b)
       return where(pe, pred, va, vb)
-    va, vb = run(a), run(b)
+    def run_arm(f):
+      try:
+        return run(f)
+      except PyRaise as e:
+        # this arm rejects the configuration; the other may still be valid
+        return Tensor(("sym", "RAISES<%s>" % e.exc_name), None)
+    va, vb = run_arm(a), run_arm(b)
     return T(pe, ("phase", pe.as_term(va), pe.as_term(vb)),
              shape_of(va, vb))
   if name == "tf.while_loop":
